@@ -10,6 +10,7 @@ import (
 	"path/filepath"
 	"reflect"
 	"regexp"
+	"strconv"
 	"strings"
 
 	"gitee.com/xuesongtao/protoc-go-valid/valid"
@@ -111,7 +112,9 @@ var messages = []string{"", "bad value", "值不对", "值 bad", "x", "字", "a=
 	// full-width look-alikes of the syntax characters are ordinary text
 	"姓名长度需在2～4之间", "数量需＝1", "a｜b only", "，；：",
 	// the message separator inside the message
-	"size must be 1|2|3", "模式只能是 r|w", "a|b", "|", "trailing|"}
+	"size must be 1|2|3", "模式只能是 r|w", "a|b", "|", "trailing|",
+	// a lone double quote, backslashes
+	"请输入形如 12\" 的整数", "5\" wide", "\"", "format \\d{4}", "C:\\data\\logs", "use / not \\", "\\"}
 
 func withMsg(rule, msg string) string {
 	if msg == "" {
@@ -433,7 +436,37 @@ func run(c *runner.Ctx) {
 		}
 	}
 	seqSep = ""
+	// the same sequences (up to length 4) with a lone double quote / a backslash inside every custom message
+	for _, dec := range []string{"\"", "\\d{4}", " C:\\dir\\", "“"} {
+		seqDecor = dec
+		c.Space(fmt.Sprintf("extractor-sequences/messages-holding-%q", dec))
+		for total := 1; total <= 4; total++ {
+			for g := 0; g <= total && g <= 2; g++ {
+				k := total - g
+				n := 1
+				for i := 0; i < k; i++ {
+					n *= len(kinds)
+				}
+				for x := 0; x < n; x++ {
+					if !c.Take() {
+						continue
+					}
+					seq := make([]byte, k)
+					y := x
+					for i := k - 1; i >= 0; i-- {
+						seq[i] = kinds[y%len(kinds)]
+						y /= len(kinds)
+					}
+					runSeq(c, seq, g)
+				}
+			}
+		}
+	}
+	seqDecor = ""
 }
+
+// seqDecor, when set, is appended to every custom message of a sequence (a lone double quote, backslashes).
+var seqDecor string
 
 // seqSep, when set, is installed as the clause separator (the exported ErrEndFlag) for the validation and the
 // extraction of one sequence.
@@ -454,18 +487,18 @@ func runSeq(c *runner.Ctx, seq []byte, groups int) {
 		tag := ""
 		switch k {
 		case 'Z':
-			tag = fmt.Sprintf("required|必填%d", i)
-			wantExplain = append(wantExplain, fmt.Sprintf("必填%d", i))
+			tag = fmt.Sprintf("required|必填%d%s", i, seqDecor)
+			wantExplain = append(wantExplain, fmt.Sprintf("必填%d%s", i, seqDecor))
 		case 'E':
-			tag = fmt.Sprintf("required|need%d", i)
-			wantExplain = append(wantExplain, fmt.Sprintf("need%d", i))
+			tag = fmt.Sprintf("required|need%d%s", i, seqDecor)
+			wantExplain = append(wantExplain, fmt.Sprintf("need%d%s", i, seqDecor))
 		case 'D':
 			tag = "required"
 			wantExplain = append(wantExplain, "it is required")
 		case 'U':
 			tag = fmt.Sprintf("zz%d", i)
 		}
-		fields = append(fields, reflect.StructField{Name: fmt.Sprintf("F%d", i), Type: strT, Tag: reflect.StructTag(`valid:"` + tag + `"`)})
+		fields = append(fields, reflect.StructField{Name: fmt.Sprintf("F%d", i), Type: strT, Tag: reflect.StructTag(`valid:` + strconv.Quote(tag))})
 	}
 	var unequal []int
 	for gi := 0; gi < groups; gi++ {
